@@ -1,7 +1,7 @@
 PROP = dict(
     id="C15",
-    lean_modules=["TongoProofs.C15"],
-    gen=["WalletConsts"],
+    lean_modules=["TongoProofs.C15", "TongoProofs.C15Tlb"],
+    gen=["WalletConsts", "TlbTypes"],
     # the model IS the specification for these ops: the address is defined as the hash of the state-init laid out as
     # the TON schema says, the send parameters and the confirmation verdict are what the property states
     spec_ops=("w.addr", "w.gwa", "w.gsi", "w.send", "w.ctx", "cell.hash", "seed.key", "prim.sha512", "prim.hmac512", "prim.pbkdf2_512"),
@@ -18,6 +18,8 @@ PROP = dict(
          "spaces, words outside the list), RandomSeed draws; "
          "non-trivial = distinct (version,key,options) address case or distinct (version,state,history,count,errors) send case",
     trusted_base=[
+        "translator X1 (TlbTypes): the wallet struct descriptors are regenerated from wallet/*.go on every run; the hand-written "
+        "layouts are proved equal to Tlb.encode on them (TongoProofs/C15Tlb.lean), so a field swap / width change breaks an obligation",
         "translator WalletConsts (harness/cmd/extract, go/ast): DefaultSubWallet, MainnetGlobalID, the v5 opcodes, the Version enumeration and maxMessageNumber() literals are re-read from wallet/*.go on every run and stated as decide-d obligations against the model (lean/TongoGen/WalletConsts.lean)",
         "hand model lean/TongoModel/{Wallet,WalletSend,CellOrd,CellRead}.lean tied to wallet/*.go, tlb/account.go by "
         "correspondence on every run (addresses bit-exact through SHA-256, captured payload decoded by fixed offsets)",
@@ -54,5 +56,5 @@ PROP = dict(
                "collision-freedom assumption",
     technique="functional model + structural proofs (append/bit-list injectivity), differential correspondence with "
               "scripted blockchain interface, direct property oracles",
-    line_timeout="30s",
+    line_timeout="120s",
 )
